@@ -832,3 +832,103 @@ func init() {
 		return res
 	}
 }
+
+// goValue converts a fully concrete engine value to a native Go value (for
+// formatting functions).
+func (in *Interp) goValue(v Value, t types.Type) (interface{}, bool) {
+	switch x := v.(type) {
+	case Iface:
+		if x.t == nil {
+			return nil, true
+		}
+		return in.goValue(x.v, x.t)
+	case Str:
+		s, ok := concreteStr(x)
+		return s, ok
+	case *Term:
+		c, ok := x.ConstVal()
+		if !ok {
+			return nil, false
+		}
+		if b, isB := t.Underlying().(*types.Basic); isB {
+			switch b.Kind() {
+			case types.Bool:
+				return c == 1, true
+			case types.Int:
+				return int(int64(c)), true
+			case types.Int8:
+				return int8(c), true
+			case types.Int16:
+				return int16(c), true
+			case types.Int32:
+				return int32(c), true
+			case types.Int64:
+				return int64(c), true
+			case types.Uint:
+				return uint(c), true
+			case types.Uint8:
+				return uint8(c), true
+			case types.Uint16:
+				return uint16(c), true
+			case types.Uint32:
+				return uint32(c), true
+			case types.Uint64:
+				return c, true
+			}
+		}
+		return nil, false
+	case Slice:
+		if st, ok := t.Underlying().(*types.Slice); ok && intWidth(st.Elem()) == 8 {
+			if x.obj == nil {
+				return []byte(nil), true
+			}
+			n, ok1 := x.len.ConstVal()
+			off, ok2 := x.off.ConstVal()
+			if !ok1 || !ok2 || n > 1<<16 {
+				return nil, false
+			}
+			a := in.sarrOf(x)
+			out := make([]byte, n)
+			for i := uint64(0); i < n; i++ {
+				c, ok := a.get(C64(off + i)).ConstVal()
+				if !ok {
+					return nil, false
+				}
+				out[i] = byte(c)
+			}
+			return out, true
+		}
+	}
+	return nil, false
+}
+
+func init() {
+	sprintf := func(in *Interp, fn *ssa.Function, args []Value) Value {
+		f, ok := concreteStr(args[0].(Str))
+		if !ok {
+			return strLit("?fmt.Sprintf")
+		}
+		var gv []interface{}
+		for _, a := range in.variadic(args[1]) {
+			iv, isI := a.(Iface)
+			if !isI {
+				return strLit("?fmt.Sprintf")
+			}
+			// values with their own String/Error methods are not rendered natively
+			if iv.t != nil {
+				if _, isNamed := iv.t.(*types.Named); isNamed {
+					if ms := in.ld.prog.MethodSets.MethodSet(iv.t); ms.Lookup(nil, "String") != nil || ms.Lookup(nil, "Error") != nil {
+						return strLit("?fmt.Sprintf")
+					}
+				}
+			}
+			g, ok := in.goValue(iv, nil)
+			if !ok {
+				return strLit("?fmt.Sprintf")
+			}
+			gv = append(gv, g)
+		}
+		return strLit(fmt.Sprintf(f, gv...))
+	}
+	libModels["fmt.Sprintf"] = sprintf
+}
